@@ -34,7 +34,11 @@ func vFileSize(fsys fs.FileSystem, name string) int64 {
 // vFixTailCRC (native replays only): the engine treats CRC-32 as an uninterpreted
 // function, so a counterexample in which the reference accepts a record formed by
 // the symbolic tail fixes "stored checksum == crc(bytes)" without the real CRC
-// holding. The replay recomputes the checksum of that first tail record.
+// holding. The replay realises it with real bytes: when the record's payload has
+// at least 4 bytes, the last 4 payload bytes are solved so that the REAL CRC-32 of
+// the record equals the checksum the model stored (a CRC pre-image, as for the
+// hashes: a counterexample may depend on the checksum's value); otherwise the
+// stored checksum is recomputed from the bytes.
 func vFixTailCRC(tail []byte) {
 	if vSymbolic() || vRecorded("tailvalid", 0) != 1 || len(tail) < 10 {
 		return
@@ -45,8 +49,46 @@ func vFixTailCRC(tail []byte) {
 	if n+4 > len(tail) {
 		return
 	}
+	if kl+vl >= 4 {
+		want := uint32(tail[n]) | uint32(tail[n+1])<<8 | uint32(tail[n+2])<<16 | uint32(tail[n+3])<<24
+		vCRCPatch(tail[:n], want)
+		if crc32.ChecksumIEEE(tail[:n]) == want {
+			return
+		}
+	}
 	c := crc32.ChecksumIEEE(tail[:n])
 	tail[n], tail[n+1], tail[n+2], tail[n+3] = byte(c), byte(c>>8), byte(c>>16), byte(c>>24)
+}
+
+// vCRCPatch overwrites the last 4 bytes of data so that ChecksumIEEE(data) == want
+// (CRC-32 is affine: running the register backwards from the wanted final value
+// over 4 bytes determines the 4 table indices, hence the bytes).
+func vCRCPatch(data []byte, want uint32) {
+	if len(data) < 4 {
+		return
+	}
+	tab := crc32.IEEETable
+	var top [256]byte // top byte of table entry -> index (a bijection)
+	for i := 0; i < 256; i++ {
+		top[tab[i]>>24] = byte(i)
+	}
+	// register after the prefix (ChecksumIEEE = ^update(^0, ...))
+	reg := ^crc32.ChecksumIEEE(data[:len(data)-4])
+	// backwards: final register f = ^want; f = tab[i3] ^ (r3>>8), ...
+	f := ^want
+	var idx [4]byte
+	for k := 3; k >= 0; k-- {
+		i := top[f>>24]
+		idx[k] = i
+		f = (f ^ tab[i]) << 8 // upper 24 bits of the previous register, low byte unknown (fixed forwards)
+	}
+	// forwards: byte_k = idx_k ^ low byte of the register before step k
+	r := reg
+	for k := 0; k < 4; k++ {
+		b := idx[k] ^ byte(r)
+		data[len(data)-4+k] = b
+		r = tab[byte(r)^b] ^ (r >> 8)
+	}
 }
 
 // vValidRecords builds p well-formed records with symbolic contents.
@@ -73,7 +115,13 @@ func hC08iter(p, T, mode int) {
 	if T >= 6 {
 		kl := uint32(tail[0]) | uint32(tail[1])<<8
 		vl := (uint32(tail[2]) | uint32(tail[3])<<8 | uint32(tail[4])<<16 | uint32(tail[5])<<24) & 0x7fffffff
-		if mode == 0 {
+		if mode == 2 {
+			// one record of fixed shape (2-byte key, 4-byte value): whatever value its
+			// checksum has, a record whose stored checksum equals its CRC is replayed
+			// (payload >= 4 bytes: the replay realises the model's checksum value)
+			vAssume(kl == 2)
+			vAssume(vl == 4)
+		} else if mode == 0 {
 			vAssume(vl <= 64)
 			vAssume(kl+vl <= 64)
 		} else {
@@ -130,6 +178,7 @@ func hC08iter(p, T, mode int) {
 
 func H_C08_iter_q()   { c := vCase(); hC08iter(c%2, 6+c/2, 0) } // p in {0,1}, T = 6..
 func H_C08_iter_s()   { c := vCase(); hC08iter(c%2, c/2, 0) }   // short tails T = 0..5
+func H_C08_crcval()   { hC08iter(vCase()%2, 16, 2) }
 func H_C08_iter_big() { c := vCase(); hC08iter(c%2, 6+c/2, 1) } // claimed size > 64
 
 // hC08two: a damaged (older) segment followed by an intact newer one: after the
